@@ -81,7 +81,8 @@ func c03Run(e *vh.Env, c c03Case, o *vh.Out) {
 	}
 	// warm-up and baseline
 	if r := doFault(sys, "ok", nil); r.Status != 200 {
-		o.Inconcl("warm-up request failed: %+v", r)
+		// nothing is scripted to fail here: the virtual clock moved under a healthy exchange; the case is re-executed
+		vh.FlagAnomaly(fmt.Sprintf("c03 warm-up request failed: %+v", r))
 		return
 	}
 	time.Sleep(130 * time.Second)
